@@ -86,7 +86,7 @@ func cmdCheck(args []string) {
 		fmt.Fprintln(os.Stderr, "bad property config:", err)
 		os.Exit(2)
 	}
-	timeout := 10
+	timeout := 20
 	if *tier == "thorough" {
 		timeout = 60
 	}
